@@ -1,7 +1,7 @@
 (* C10 - Patch composition follows the documented per-action semantics. *)
 From Coq Require Import String List Bool.
 From Sidetree Require Import Json.Json Sidetree.JsonPatch Sidetree.Composer Sidetree.Validator Sidetree.Frame
-     Sidetree.ComposerProps Sidetree.Rfc6902 Sidetree.Conformance.
+     Sidetree.ComposerProps Sidetree.Rfc6902 Sidetree.Conformance Sidetree.ConformanceArr.
 Import ListNotations.
 Open Scope string_scope.
 
@@ -92,6 +92,32 @@ Theorem C10_replace_conforms : forall doc op path x d,
   rfc_apply_op doc (JObj op) = Some d -> conv (apply_op doc (JObj op)) = Some d.
 Proof. intros doc op path x d Hp Hm. exact (replace_conforms doc op path Hp Hm x d). Qed.
 Print Assumptions C10_replace_conforms.
+
+(* ... and for elements of arrays (reached through object members) addressed in the RFC's own index
+   spelling - digits without a leading zero, or "-" for add: insertion before the index, at the
+   end for "-" and for index = length, an error beyond; removal of the element at the index *)
+Theorem C10_add_conforms_array : forall doc op path x,
+  lookup "path" op = Some (JStr path) -> element_path doc path ->
+  lookup "op" op = Some (JStr "add") -> lookup "value" op = Some x ->
+  conv (apply_op doc (JObj op)) = rfc_apply_op doc (JObj op).
+Proof. intros doc op path x Hp He. exact (add_conforms_array doc op path Hp He x). Qed.
+Print Assumptions C10_add_conforms_array.
+
+Theorem C10_remove_conforms_array : forall doc op path i,
+  lookup "path" op = Some (JStr path) -> element_path doc path ->
+  lookup "op" op = Some (JStr "remove") ->
+  rfc_index (decode_key (last (tl (split_path path)) "")) = Some i ->
+  conv (apply_op doc (JObj op)) = rfc_apply_op doc (JObj op).
+Proof. intros doc op path i Hp He. exact (remove_conforms_array doc op path Hp He i). Qed.
+Print Assumptions C10_remove_conforms_array.
+
+Theorem C10_replace_conforms_array : forall doc op path i x,
+  lookup "path" op = Some (JStr path) -> element_path doc path ->
+  lookup "op" op = Some (JStr "replace") -> lookup "value" op = Some x ->
+  rfc_index (decode_key (last (tl (split_path path)) "")) = Some i ->
+  conv (apply_op doc (JObj op)) = rfc_apply_op doc (JObj op).
+Proof. intros doc op path i x Hp He. exact (replace_conforms_array doc op path Hp He i x). Qed.
+Print Assumptions C10_replace_conforms_array.
 
 Example C10_nonvacuous :
   let doc := [("publicKey", JArr [JObj [("id", JStr "k1"); ("v", JNum "1")]; JObj [("id", JStr "k2")]])] in
